@@ -383,9 +383,19 @@ func (c *Ctx) bodyTotal(s readSite) (total ssa.Value, how, why string) {
 				visit(e, depth+1)
 			}
 		case *ssa.Slice:
-			// b[:len(b)+n] keeps capacity
+			// b[:len(b)+n] keeps capacity; b[lo:hi:max] caps it at max-lo <= max
 			if x.Max != nil {
-				okCap = false
+				capOK := leq(x.Max, bound, 0)
+				if bo, ok := x.Max.(*ssa.BinOp); ok && bo.Op == token.ADD && x.Low != nil {
+					// cap = max - low: max = low + v with v <= bound
+					if sameVal(bo.X, x.Low) && leq(bo.Y, bound, 0) || sameVal(bo.Y, x.Low) && leq(bo.X, bound, 0) {
+						capOK = true
+					}
+				}
+				if !capOK {
+					okCap = false
+				}
+				return
 			}
 			visit(x.X, depth+1)
 		case *ssa.MakeSlice:
